@@ -105,7 +105,7 @@ func init() {
 func TestC15_Invariants(t *testing.T) {
 	st := ev.New("C15", "TestC15_Invariants", "block history (3-12 blocks, 0-6 txs each over 30 intent kinds: bank, staking, distribution, gov, vesting, liquid vesting, DAO, EVM transfers/contracts/precompiles, invalid txs; time steps 1s..400d, absent validators, double-sign evidence, coinomics on/off); non-trivial = at least one Haqq-module/EVM tx succeeded and at least one staking tx succeeded or a slash happened")
 	runCorpus(t, st)
-	runRapid(t, st, 160, 6000, func(rt *rapid.T) {
+	runRapid(t, st, 160, 15000, func(rt *rapid.T) {
 		if msg := runC15(st, genHistory(rt, 3, 12, hKinds)); msg != "" {
 			rt.Fatalf("%s", msg)
 		}
